@@ -11,7 +11,8 @@ import roundtrip
 from framework import Result, finish, proof_obligations
 
 PROP = "C09"
-NEEDS = ["model/Values.v", "model/Eval.v", "model/Loader.v", "model/Serialize.v", "proofs/SerializeP.v", "model/Unparse.v", "proofs/UnparseP.v", "extract/Extract.v"]
+NEEDS = ["model/Values.v", "model/Eval.v", "model/Loader.v", "model/Serialize.v", "model/Unparse.v", "model/Skeleton.v", "proofs/SerializeP.v",
+         "proofs/UnparseP.v", "extract/Extract.v"]
 EXTREME_F = [0.0, -0.0, 1.0, -1.5, 5e-324, 2.2250738585072014e-308, 1e300, -1e300, 1e-300, 1.7976931348623157e308, 0.1, 1 / 3, 123456789.123456789, 1e22, 1e-7, 1e16]
 EXTREME_I = [0, 1, -1, 7, 2 ** 31, -2 ** 31, 2 ** 53 + 1, 2 ** 62, -(2 ** 62)]
 
@@ -136,6 +137,18 @@ def check(model, impl, p, stats):
         return "the serialised script is refused by the model (%s)" % mo["err"], d
     else:
         stats["model_unspec"] = stats.get("model_unspec", 0) + 1
+    # the dump is a fixed point of the model serialiser's structure: skeleton(ser(load(d))) = skeleton(d)
+    import json
+    a = json.loads(model.ask("SERSKEL", observe.enc("/"), observe.enc(d)))
+    b = json.loads(model.ask("TEXTSKEL", observe.enc(d)))
+    if a is None:
+        stats["model_serialiser_undefined"] = stats.get("model_serialiser_undefined", 0) + 1
+    elif a != b:
+        k = next((i for i, (x, y) in enumerate(zip(a, b or [])) if x != y), min(len(a), len(b or [])))
+        return "the serialised script has a different structure than the model serialiser prescribes at item %d: %r vs model %r" % (
+            k, b[k] if b and k < len(b) else None, a[k] if k < len(a) else None), d
+    else:
+        stats["skeleton_agree"] = stats.get("skeleton_agree", 0) + 1
     return None, d
 
 
